@@ -102,6 +102,12 @@ _reserved_words = {
 }
 
 
+def _escape_string_literal(s):
+    # backslash, double quote and control characters cannot appear raw in a literal
+    return (s.replace('\\', '\\\\').replace('"', '\\"').replace('\n', '\\n')
+            .replace('\r', '\\r').replace('\t', '\\t'))
+
+
 def fmt_obj(o):
     assert not isinstance(o, dict), "Only use for base type literals"
     if o is True:
@@ -113,7 +119,7 @@ def fmt_obj(o):
     if o == '':
         return '""'
     elif isinstance(o, str):
-        return '"{}"'.format(o)
+        return '"{}"'.format(_escape_string_literal(o))
 
     return pprint.pformat(o, width=1)
 
